@@ -110,7 +110,8 @@ def run_item(gen_kw, item):
                 m = R.build_dict(g, rnd, srnd)
             else:
                 d = tempfile.mkdtemp(prefix='verif-wb-')
-                m = R.build_files(g, d, rnd, srnd, var.get('qualify', 'min'), var.get('load', 'all'))
+                m = R.build_files(g, d, rnd, srnd, var.get('qualify', 'min'), var.get('load', 'all'),
+                                  links=var.get('links'))
             _verif.drain()          # loading is over: what follows is the calculation
             sol = m.calculate()
             rec['obs'] = R.observe_all(sol, g)
